@@ -66,6 +66,14 @@ def body(run):
             add(c, s, beh)
     add(0, 54460, "hello", "select")
     add(0, 60000, "hello", "stream")
+    # cancellation during the handshake (while waiting for the hello; while the addendum write is blocked because the
+    # server stopped reading) and a blocked addendum write without cancellation
+    for c, s in rng.sample(pairs, 30 if T else 10) + [(54460, 54460), (0, 54458), (54457, 54460)]:
+        for beh, cancel in (("stall", 30), ("stall", 150), ("blockw", 30), ("blockw", 150), ("late", 50), ("late", 400)):
+            add(c, s, beh)
+            sessions[-1]["cancelMs"] = cancel
+    for c, s in [(54460, 54460), (54457, 54460)] + (rng.sample(pairs, 6) if T else []):
+        add(c, s, "blockw")
     drv = V.go_build(PID, "drv")
     lines = S.run_sessions(PID, drv, sessions, "sessions", nproc=8, par=12)
     v = S.validate(PID, lines, "tv")
